@@ -224,6 +224,14 @@ fn random_peer_digest(rng: &mut StdRng, cc: &Chitchat, mode: u8) -> Vec<WDigestE
     }
     // the peer itself
     d.push(WDigestEntry { id: mk_wid("peer", 0, addr(7999)), heartbeat: 3, last_gc: 0, max_version: 2 });
+    if mode == 3 {
+        // the peer's digest also announces members the sender has never heard of, some with long ids: they enter the
+        // sender's own digest while it answers, and that digest is part of what must fit
+        for j in 0..rng.random_range(5..40) {
+            let l = [8usize, 60, 200, 400][rng.random_range(0..4)];
+            d.push(WDigestEntry { id: mk_wid(&format!("novel-{j}-{}", "n".repeat(l)), j as u64, addr(9000 + j as u16)), heartbeat: 2, last_gc: 0, max_version: 0 });
+        }
+    }
     d
 }
 
@@ -489,7 +497,7 @@ fn run_c07_case(seed: u64, i: u64, base: &str, rt: &tokio::runtime::Runtime) -> 
         st.c.add("members_scheduled_for_deletion", s.cc.scheduled_for_deletion_nodes().count() as u64);
     }
     st.sample = Some(json!({"case": i, "members": n_members, "keys_per_member": keys_per_member, "own_keys": own_keys, "value_len": vlen, "payload_class": class}));
-    for mode in 0..3u8 {
+    for mode in 0..4u8 {
         let d = random_peer_digest(&mut rng, &s.cc, mode);
         exercise_replies(&mut s, &d, &mut st, &format!("case {i} digest-mode {mode}"));
         let mut budgets: Vec<usize> = vec![100, 101, 127, 128, 1_000, 16_383, 16_384, 16_385, 16_390, 32_768, 65_503, 65_507];
